@@ -306,8 +306,15 @@ def run(chk):
 
     for k_, tags, cc in corpus("quick", exclude=("x", "names", "wide")):
         pmodels[f"corpus::{k_}"] = cc
+    # a blackbox output is a startpoint like an input: cones that contain one (the quantifier names circuits with blackbox pins)
+    from ..refmodel import RefBlackBox as _RBB
+
+    _bb = _RBB("bb", ["i"], ["o"])
+    pmodels["blackbox-output-in-the-cone"] = build({"x": ("input", []), "u0.i": ("bb_input", ["x"]), "u0.o": ("bb_output", []), "y": ("buf", ["u0.o"]), "z": ("and", ["x", "y"])}, outputs=["z"], blackboxes={"u0": _bb})
     for mname, cm in pmodels.items():
         for node in sorted(cm.nodes()):
+            if cm.type(node) == "bb_input":
+                continue
             sp = sorted(cm.startpoints(node))
             ones = sum(1 for a in _assignments(sp) if rsim(cm, {**{s: False for s in cm.startpoints()}, **a})[node])
             want = Fraction(ones, 2 ** len(sp))
